@@ -383,6 +383,11 @@ pub fn make_cfg(prop: &str, run_seed: u64) -> (RunCfg, Gen) {
     if prop == "C04" {
         doc.bang_ids = rng.chance(1, 8);
     }
+    if ["C06", "C07", "C01"].contains(&prop) && run_seed % 9 == 4 {
+        // element identifiers that start with the escape character of string references
+        doc.bang_ids = true;
+        doc.nested = false;
+    }
     if prop == "C08" {
         doc.root_ids = rng.chance(1, 4);
     }
